@@ -72,6 +72,7 @@ type profile struct {
 // genCommon restricts generation to the feature set the three resolver strategies share (C02):
 // no abstract types, String/Boolean arguments that are always supplied, variables always given
 var genCommon bool
+var genNoAbstract bool
 
 func named(id int) gTy { return gTy{kind: 'n', id: id} }
 
@@ -102,10 +103,10 @@ func genSchema(r *rand.Rand) *gSchema {
 		objs = append(objs, 20+i)
 	}
 	var iface, union *gType
-	if chance(r, 0.65) && !genCommon {
+	if chance(r, 0.65) && !genNoAbstract {
 		iface = &gType{id: 28, kind: "iface"}
 	}
-	if chance(r, 0.65) && !genCommon {
+	if chance(r, 0.65) && !genNoAbstract {
 		union = &gType{id: 29, kind: "union"}
 		n := 1 + r.Intn(len(objs))
 		perm := r.Perm(len(objs))
@@ -170,7 +171,7 @@ func genSchema(r *rand.Rand) *gSchema {
 		for _, a := range r.Perm(3)[:n] {
 			t := named(pick(r, []int{10, 11, 12, 30}))
 			if genCommon {
-				t = named(pick(r, []int{11, 12}))
+				t = named(pick(r, []int{10, 11, 12, 30}))
 			}
 			if chance(r, 0.3) {
 				in := t
@@ -669,7 +670,7 @@ func (d *docGen) sels(container int, depth int) []sx.S {
 			args := []sx.S{"args"}
 			for _, a := range f.args {
 				req := a.ty.kind == 'N'
-				if genCommon || (req && chance(r, 0.97)) || (!req && chance(r, d.p.pArgs)) {
+				if (req && (genCommon || chance(r, 0.97))) || (!req && chance(r, d.p.pArgs)) {
 					var v sx.S
 					if chance(r, 0.35) {
 						v = d.useVar(a.ty)
@@ -680,7 +681,7 @@ func (d *docGen) sels(container int, depth int) []sx.S {
 					d.feats["argument"] = true
 				}
 			}
-			if len(args) > 2 && chance(r, 0.5) && !genCommon {
+			if len(args) > 2 && chance(r, 0.5) {
 				args[1], args[2] = args[2], args[1]
 			}
 			fid := d.id()
@@ -886,7 +887,7 @@ func genExecCase(r *rand.Rand, p *profile, id string) Case {
 		}
 		vs := []sx.S{"vars"}
 		for _, v := range oi.vars {
-			if chance(r, 0.6) || genCommon {
+			if chance(r, 0.6) {
 				vs = append(vs, sx.L(sx.A(v.name), varValue(r, s, v.ty)))
 			} else if v.dflt == "-" {
 				d.feats["var-unset"] = true
